@@ -26,7 +26,7 @@ Section Interp.
 
   (* ---- T.cleanup: cancel the context, then pop and run until the stack is empty; a panicking
      cleanup does not stop the others; the last panic is the one that propagates ---- *)
-  Fixpoint cleanup_loop (fuel : nat) (last : option exn) : M (option exn) :=
+  Fixpoint cleanup_loop (inner : bool) (fuel : nat) (last : option exn) : M (option exn) :=
     match fuel with
     | O => throw XFuel
     | S f =>
@@ -38,20 +38,25 @@ Section Interp.
               match r with
               | Err XFuel => throw XFuel
               | Err (XInvalid m) =>
-                  (* a skip requested by a cleanup function is honoured when the test case ends; it never replaces a
-                     failure in flight (runCleanup).  A cleanup that ran out of data and is followed by more work:
-                     replay-unfaithful *)
-                  _ <- (if internal_msg m then mark_dirty else ret tt) ;;
-                  _ <- note_skip m ;;
-                  cleanup_loop f last
-              | Err e => cleanup_loop f (Some e)
-              | Ok _ => cleanup_loop f last
+                  if inner && internal_msg m then
+                    (* a generator ran out of data inside a cleanup function of a Custom generator function: not a skip
+                       request; it propagates like any other exception of a cleanup function (and rejects the attempt) *)
+                    _ <- mark_dirty ;;
+                    cleanup_loop inner f (Some (XInvalid m))
+                  else
+                    (* a skip requested by a cleanup function is honoured when the test case ends; it never replaces a
+                       failure in flight (runCleanup).  A cleanup of the outermost T that ran out of data: replay-unfaithful *)
+                    _ <- (if internal_msg m then mark_dirty else ret tt) ;;
+                    _ <- note_skip m ;;
+                    cleanup_loop inner f last
+              | Err e => cleanup_loop inner f (Some e)
+              | Ok _ => cleanup_loop inner f last
               end)
         end
     end.
-  Definition cleanup : M (option exn) :=
+  Definition cleanup (inner : bool) : M (option exn) :=
     _ <- begin_cleanup ;;
-    r <- cleanup_loop LF None ;;
+    r <- cleanup_loop inner LF None ;;
     _ <- end_cleanup ;;
     ret r.
 
@@ -71,9 +76,13 @@ Section Interp.
     match r with
     | Err XFuel => throw XFuel
     | _ =>
-        c <- cleanup ;;                               (* the inner T's cleanup runs before the recover decides *)
+        c <- cleanup true ;;                          (* the inner T's cleanup runs before the recover decides *)
         t0 <- get_ts ;;
         match c, r with
+        | Some (XInvalid m), _ =>
+            (* a generator ran out of data inside a cleanup function: the attempt is rejected, whatever the function
+               itself did - unless a non-fatal failure was signalled *)
+            match failed t0 with Some _ => throw (XInvalid m) | None => ret None end
         | Some e, Err (XInvalid m) => _ <- (if internal_msg m then mark_dirty else ret tt) ;; throw e
         | Some e, _ => throw e                       (* a panic raised during cleanup wins *)
         | None, Ok v => ret (Some v)
